@@ -149,3 +149,40 @@ contract(TS, "Tensor.getPayloadRef", cases=[{"self": "Tensor", "*args": "tuple[i
              "implies(old(member(coord, %s.coords)), unchanged_list(%s.coords) and unchanged_list(%s.payloads))" % (R, R, R),
              "implies(not old(member(coord, %s.coords)), len(%s.coords) == old(len(%s.coords)) + 1 and fresh(result) and result.value == %s.g_default)" % (R, R, R, R)]},
          note="a 1-D tensor hands out the reference its root fiber does")
+
+# ---------------------------------------------------------------- remaining read-only traversal wrappers (C07)
+IN_ACT = "self.g_active0 <= self.coords[%(j)s] and self.coords[%(j)s] < self.g_active1 and not pempty(self.payloads[%(j)s], self.g_default)"
+contract(F, "iterActive", cases=[dict(self="Fiber"), dict(self="Fiber", tick="bool", start_pos="opt[int]")], case_names=["plain", "start_pos"],
+         returns="iter[%s]" % ELEM,
+         requires=["wf(self)", "not Metrics.collecting"],
+         per_case={"start_pos": dict(requires=[
+             "isnone(start_pos) or (0 <= val(start_pos) < len(self.coords) and forall(lambda j: not (" + IN_ACT % dict(j="j") + "), 0, val(start_pos)))"])},
+         modifies=BOOK,
+         ensures={"C07": [
+             ASC, "unchanged_list(self.coords)", "unchanged_list(self.payloads)",
+             # exactly the stored non-empty elements inside the active range, with their own payload objects
+             "forall(lambda k: exists(lambda j: 0 <= j < len(self.coords) and self.coords[j] == result.seq[k][0] and self.payloads[j] is result.seq[k][1] and "
+             + IN_ACT % dict(j="j") + "), 0, len(result.seq))",
+             "forall(lambda j: implies(" + IN_ACT % dict(j="j") + ", exists(lambda k: 0 <= k < len(result.seq) and result.seq[k][0] == self.coords[j] and "
+             "result.seq[k][1] is self.payloads[j])), 0, len(self.coords))"]},
+         note="iterRange over getActive() (ghost g_active0/1, tier T)")
+
+contract(F, "iterShape", cases=[dict(self="Fiber"), dict(self="Fiber", tick="bool")], case_names=["plain", "tick"],
+         returns="iter[%s]" % ELEM,
+         requires=["wf(self)", "not Metrics.collecting", "not isnone(self.g_shape1)"] + LEAFBOX,
+         modifies=BOOK,
+         ensures={"C07": ["forall(lambda k: result.seq[k][0] == k, 0, len(result.seq))",
+                          "len(result.seq) == (0 if val(self.g_shape1) <= 0 else val(self.g_shape1))",
+                          "forall(lambda k: typeis(result.seq[k][1], 'Payload'), 0, len(result.seq))",
+                          "forall(lambda k: forall(lambda j: implies(self.coords[j] == k, result.seq[k][1] is self.payloads[j]), 0, len(self.coords)), 0, len(result.seq))",
+                          "forall(lambda k: implies(forall(lambda j: self.coords[j] != k, 0, len(self.coords)), result.seq[k][1].value == self.g_default), 0, len(result.seq))",
+                          "unchanged_list(self.coords)", "unchanged_list(self.payloads)", BOOK_SAME]},
+         note="iterRangeShape(0, getShape(all_ranks=False)) (ghost g_shape1, tier T): every coordinate of the shape with the stored box or a default")
+
+contract(TS, "Tensor.countValues", types=dict(self="Tensor"), returns="int",
+         ghost={"C": "count_nonempty(self._root)"},
+         requires=["typeis(%s, 'Fiber')" % R, "len(self.ranks) > 0", "len(self.ranks[0].fibers) > 0", "%s is self.ranks[0].fibers[0]" % R,
+                   "wf(%s)" % R, "%s.g_leaf" % R, "forall(lambda k: typeis(%s.payloads[k], 'Payload'), 0, len(%s.payloads))" % (R, R)],
+         modifies=[],
+         ensures={"C12": ["result == C(len(%s.payloads))" % R]},
+         note="a 1-D tensor counts exactly what its root fiber counts")
